@@ -1,7 +1,7 @@
 (* Xml/StrictValidEntities.v — exclusion (b) of C08_accepted_is_valid_partial, as a theorem: entity syntax.
    StrictValid speaks about the stored (unescaped) text.  What strict loading accepts BEFORE unescaping is stated here,
    as a grammar: when unescape_string returns in strict mode, the text is a sequence of bytes other than '&', the five
-   named references, and numeric references &#x<hex>; / &#<dec>; whose digits have no sign (fix 68ba067), parse as u32 in
+   named references, and numeric references &#x<hex>; / &#<dec>; whose digits have no sign (fix 5f62213), parse as u32 in
    that radix (std from_str_radix: Base/Radix.v) and denote a char; the result is the text with every reference replaced
    by what it denotes; the parser state is untouched.  And conversely (unesc_complete): every such text is accepted. *)
 From Coq Require Import Arith Lia.
